@@ -86,6 +86,7 @@ func runC06(c *kit.Ctx) {
 			}
 			c.Check(good, dcb, "cells-cursor", call.Pos(), "result i takes its cells from b[cursor:], the cursor advancing by what each decode returned", "the cells of result i are not read from where result i-1 ended: rows get each other's cells")
 		}
+		scanResultsFullyPopulated(c)
 		c.Check(same && cnt >= 3, dcb, "same-index", dcb.Pos(), "cell count, partial flag and result slot use the one range index", "the per-result arrays are indexed with different indices")
 	}
 
@@ -163,9 +164,11 @@ func runC06(c *kit.Ctx) {
 
 	moreResultsFirst(c)
 	errorCarriesAssembledRow(c)
+	scanEndBoundaries(c)
 
 	// ---- R3 ---------------------------------------------------------------
 	c.StartRule("R3", "open/continue request provenance", 3)
+	scanRequestLevelOptions(c)
 	{
 		startRowF := p.Field("", "scanner", "startRow")
 		idF := p.Field("", "scanner", "curRegionScannerID")
@@ -195,6 +198,7 @@ func runC06(c *kit.Ctx) {
 						}
 					}
 					c.Check(hasID, req, "continue-request", call.Pos(), "continuation request carries ScannerID(s.curRegionScannerID)", "the continuation request does not carry the current region-scanner id")
+					c.Check(isLoadOfField(a[2], startRowF), req, "continue-request-routing", call.Pos(), "the continuation request is keyed by s.startRow (the region that holds the open scanner)", "the continuation request is keyed by something other than the scanner's current start row: the row is also the routing key, so from the second region on the request (and the region its answer is attributed to) is the scan's first region - rows repeat and later regions are never reached")
 				}
 			}
 			// region returned = Region() of the call that was sent
